@@ -174,6 +174,38 @@ Definition list_persisted_tenants (s : store) : list bytes := list_tenants (node
 (* PersistenceManager::recover = the two scans *)
 Definition recover (s : store) (t : bytes) : list value * list value := (scan_nodes s t, scan_edges s t).
 
+(* ---------- the abstract view the property is stated against ----------
+   What is stored for (tenant, id) after a history is decided by the operations
+   that name exactly that tenant and id: the payload of the last put, unless a
+   delete came after it.  No keys, no other tenants. *)
+Definition same_slot (t : bytes) (id : N) (t' : bytes) (id' : N) : bool := key_eqb t t' && N.eqb id id'.
+
+Definition touch_node (t : bytes) (id : N) (cur : option N) (o : op) : option N :=
+  match o with
+  | PutNode t' id' p => if same_slot t id t' id' then Some p else cur
+  | DelNode t' id' => if same_slot t id t' id' then None else cur
+  | _ => cur
+  end.
+
+Definition touch_edge (t : bytes) (id : N) (cur : option N) (o : op) : option N :=
+  match o with
+  | PutEdge t' id' p => if same_slot t id t' id' then Some p else cur
+  | DelEdge t' id' => if same_slot t id t' id' then None else cur
+  | _ => cur
+  end.
+
+Definition stored_node (ops : list op) (t : bytes) (id : N) : option N := fold_left (touch_node t id) ops None.
+Definition stored_edge (ops : list op) (t : bytes) (id : N) : option N := fold_left (touch_edge t id) ops None.
+
+Definition op_id (o : op) : N :=
+  match o with PutNode _ id _ | DelNode _ id | PutEdge _ id _ | DelEdge _ id => id end.
+Definition op_tenant (o : op) : bytes :=
+  match o with PutNode t _ _ | DelNode t _ | PutEdge t _ _ | DelEdge t _ => t end.
+
+(* ids are u64 in the code *)
+Definition u64_bound : N := 18446744073709551616.
+Definition valid_op (o : op) : Prop := op_id o < u64_bound.
+
 (* ---------- correspondence ---------- *)
 Inductive event :=
 | EOp (o : op)
